@@ -28,38 +28,61 @@ Proof.
   apply bind_ok in H. destruct H as [s3 [a3 [_ H]]]. inversion H. reflexivity.
 Qed.
 
-(* an invariant of the state that every nested call preserves is preserved by the cell loop *)
+(* an invariant of the state that every cell step preserves is preserved by the cell loop *)
 Lemma patch_cells_inv (rec : recT) (P : st -> Prop) stack :
-  (forall s0 x y s1 r, P s0 -> rec s0 stack x y = Ok s1 r -> P s1) ->
+  (forall s0 c1 c2 s1 r, P s0 -> cell_step rec stack c1 c2 s0 = Ok s1 r -> P s1) ->
   forall l1 l2 acc sB aB,
     (forall sA aA, acc = Ok sA aA -> P sA) ->
     patch_cells rec stack l1 l2 acc = Ok sB aB -> P sB.
 Proof.
-  intros Hrec. induction l1 as [|x l1 IH]; intros l2 acc sB aB Hacc Hp; simpl in Hp.
+  intros Hstep. induction l1 as [|x l1 IH]; intros l2 acc sB aB Hacc Hp; simpl in Hp.
   - eapply Hacc. exact Hp.
   - destruct l2 as [|y l2]; [eapply Hacc; exact Hp|].
     eapply IH; [|exact Hp]. intros sA aA Hb.
     apply bind_ok in Hb. destruct Hb as [s0 [a0 [Ha Hr]]].
-    eapply Hrec; [eapply Hacc; exact Ha|exact Hr].
+    eapply Hstep; [eapply Hacc; exact Ha|exact Hr].
 Qed.
 
-(* ... and code, defaults and doc are those of the new function from the moment of the update on
-   (stated for nested calls that leave the function object alone) *)
+Lemma lookup_update_other' h a b o : a <> b -> lookup (update h a o) b = lookup h b.
+Proof.
+  intros Hne. induction h as [|[c o'] r IH]; simpl; [reflexivity|].
+  destruct (a =? c)%N eqn:E; simpl.
+  - apply N.eqb_eq in E. subst c.
+    destruct (b =? a)%N eqn:E2; [apply N.eqb_eq in E2; congruence|reflexivity].
+  - destruct (b =? c)%N; [reflexivity|exact IH].
+Qed.
+
+(* ... and code, defaults, keyword-only defaults, doc and annotations are those of the new function from the
+   moment of the update on (stated for nested calls that leave the function object alone) *)
 Theorem patch_function_fields (rec : recT) s stack fo fn n1 m1 c1 d1 kd1 doc1 an1 fd1 cl1 fv1 n2 m2 c2 d2 kd2 doc2 an2 fd2 cl2 fv2 s' a :
   lookup (hp s) fo = Some (OFunc n1 m1 c1 d1 kd1 doc1 an1 fd1 cl1 fv1) ->
   lookup (hp s) fn = Some (OFunc n2 m2 c2 d2 kd2 doc2 an2 fd2 cl2 fv2) ->
   func_compatible (hp s) (OFunc n1 m1 c1 d1 kd1 doc1 an1 fd1 cl1 fv1) (OFunc n2 m2 c2 d2 kd2 doc2 an2 fd2 cl2 fv2) = true ->
   (forall s0 st x y s1 r, rec s0 st x y = Ok s1 r -> lookup (hp s1) fo = lookup (hp s0) fo) ->
   patch_function rec s stack fo fn = Ok s' a ->
-  lookup (hp s') fo = lookup (update (hp s) fo (OFunc n1 m1 c2 d2 kd2 doc2 an2 fd1 cl1 fv1)) fo.
+  lookup (hp s') fo = Some (OFunc n1 m1 c2 d2 kd2 doc2 an2 fd1 cl1 fv1).
 Proof.
   intros Ho Hn Hc Hrec. unfold patch_function. rewrite Ho, Hn, Hc. simpl. intros H.
   apply bind_ok in H. destruct H as [s2 [a2 [H1 H]]].
   apply bind_ok in H. destruct H as [s3 [a3 [H2 H]]]. inversion H; subst s' a. clear H.
   apply Hrec in H1. simpl in H1.
-  eapply (patch_cells_inv rec (fun st0 => lookup (hp st0) fo =
-             lookup (update (hp s) fo (OFunc n1 m1 c2 d2 kd2 doc2 an2 fd1 cl1 fv1)) fo)); [| |exact H2].
-  - intros s0 x y s1 r HP Hr. rewrite (Hrec _ _ _ _ _ _ Hr). exact HP.
+  assert (lookup (update (hp s) fo (OFunc n1 m1 c2 d2 kd2 doc2 an2 fd1 cl1 fv1)) fo
+          = Some (OFunc n1 m1 c2 d2 kd2 doc2 an2 fd1 cl1 fv1)) as Hu.
+  { clear -Ho. induction (hp s) as [|[c o'] r IH]; simpl in *; [discriminate|].
+    destruct (fo =? c)%N eqn:E; simpl; rewrite E; [reflexivity|apply IH; exact Ho]. }
+  rewrite Hu in H1.
+  eapply (patch_cells_inv rec (fun st0 => lookup (hp st0) fo = Some (OFunc n1 m1 c2 d2 kd2 doc2 an2 fd1 cl1 fv1)));
+    [| |exact H2].
+  - intros s0 x y s1 r HP Hr. unfold cell_step in Hr.
+    destruct (cell_val (hp s0) x) as [va|] eqn:Ex; [|discriminate].
+    destruct (cell_val (hp s0) y) as [vb|]; [|discriminate].
+    apply bind_ok in Hr. destruct Hr as [s4 [u [Hr Hk]]].
+    pose proof (Hrec _ _ _ _ _ _ Hr) as Hf. rewrite HP in Hf.
+    destruct (u =? va)%N; [injection Hk as <- <-; exact Hf|].
+    destruct (cell_val (hp s4) x) as [vx|] eqn:Ex4; [|discriminate]. injection Hk as <- <-. simpl.
+    assert (x <> fo) as Hne.
+    { intros ->. unfold cell_val in Ex4. rewrite Hf in Ex4. discriminate. }
+    rewrite lookup_update_other' by exact Hne. exact Hf.
   - intros sA aA HA. inversion HA; subst. exact H1.
 Qed.
 
@@ -100,14 +123,117 @@ Proof.
   eapply patch_function_kept; eassumption.
 Qed.
 
+(* ---------- methods and classes ---------- *)
+
+(* a method object always keeps its identity (its function is patched by the function rule) *)
+Theorem patch_method_kept (rec : recT) s stack m1 m2 s' a :
+  patch_method rec s stack m1 m2 = Ok s' a -> a = m1.
+Proof.
+  unfold patch_method. destruct (lookup (hp s) m1) as [o|]; [|discriminate]. destruct o; try discriminate.
+  destruct (lookup (hp s) m2) as [n|]; [|discriminate]. destruct n; try discriminate.
+  intros H. apply bind_ok in H. destruct H as [s2 [a2 [_ H]]]. inversion H. reflexivity.
+Qed.
+
+Lemma fold_setattr_addr (rec : recT) stack c_old c_new l :
+  forall acc s' a, (forall s0 a0, acc = Ok s0 a0 -> a0 = c_old) ->
+  fold_left (setattr_class modname rec stack c_old c_new) l acc = Ok s' a -> a = c_old.
+Proof.
+  induction l as [|k l IH]; intros acc s' a Hacc H; simpl in H; [eapply Hacc; exact H|].
+  eapply IH; [|exact H]. intros s0 a0 E. unfold setattr_class in E.
+  apply bind_ok in E. destruct E as [s1 [a1 [_ E]]].
+  destruct (class_getattr (hp s1) c_new k) as [[b|g]|]; [| |discriminate].
+  - destruct (class_getattr (hp s1) c_old k) as [[x|f]|].
+    + destruct (x =? b)%N; [inversion E; reflexivity|].
+      apply bind_ok in E. destruct E as [s2 [u [_ E]]].
+      destruct (u =? x)%N; [inversion E; reflexivity|].
+      destruct (class_entries (hp s2) c_old); [|discriminate]. inversion E; reflexivity.
+    + destruct (class_entries (hp s1) c_old); [|discriminate]. inversion E; reflexivity.
+    + destruct (class_entries (hp s1) c_old); [|discriminate]. inversion E; reflexivity.
+  - destruct (class_getattr (hp s1) c_old k) as [[x|f]|]; try discriminate.
+    destruct (defmod (hp s1) g) as [m|].
+    + destruct (m =? modname)%N; [|discriminate].
+      apply bind_ok in E. destruct E as [s2 [u [_ E]]]. inversion E; reflexivity.
+    + apply bind_ok in E. destruct E as [s2 [u [_ E]]]. inversion E; reflexivity.
+Qed.
+
+(* the body after the bases were mapped: the class is kept iff CPython accepts the (mapped) bases *)
+Lemma patch_class_body_result (rec : recT) stack c_old c_new s mapped s' a :
+  patch_class_body modname bases_ok nm rec stack c_old c_new s mapped = Ok s' a ->
+  a = c_old \/ (a = c_new /\ bases_ok c_old c_new = false).
+Proof.
+  unfold patch_class_body. destruct (lookup (hp s) c_old) as [o|]; [|discriminate]. destruct o; try discriminate.
+  destruct (lookup (hp s) c_new) as [n|]; [|discriminate]. destruct n; try discriminate.
+  destruct (negb (listN_eqb bases mapped) && negb (bases_ok c_old c_new)) eqn:E.
+  - intros H. inversion H; subst. right. split; [reflexivity|].
+    apply andb_true_iff in E. destruct E as [_ E]. apply negb_true_iff in E. exact E.
+  - intros H. left. eapply fold_setattr_addr; [|exact H]. intros s0 a0 E0. inversion E0. reflexivity.
+Qed.
+
+Lemma map_bases_result (rec : recT) stack obs (k : st -> list addr -> res) (P : addr -> Prop) :
+  (forall s l s' a, k s l = Ok s' a -> P a) ->
+  forall nbs s acc s' a, map_bases rec stack obs nbs s acc k = Ok s' a -> P a.
+Proof.
+  intros Hk. induction nbs as [|nb nbs IH]; intros s acc s' a H; simpl in H; [eapply Hk; exact H|].
+  destruct (find_old_base (hp s) obs nb).
+  - apply bind_ok in H. destruct H as [s2 [u [_ H]]]. eapply IH. exact H.
+  - eapply IH. exact H.
+Qed.
+
+(* identity_kept for classes: a class whose slot layout is unchanged and whose re-parenting CPython
+   accepts keeps its identity; it is replaced only if __slots__ differ or the __bases__ assignment is refused *)
+Theorem patch_class_identity (rec : recT) s stack c_old c_new s' a :
+  patch_class modname bases_ok nm rec s stack c_old c_new = Ok s' a ->
+  a = c_old \/
+  (a = c_new /\ ((exists n1 m1 cd1 b1 sl1 n2 m2 cd2 b2 sl2,
+                    lookup (hp s) c_old = Some (OClass n1 m1 cd1 b1 sl1) /\
+                    lookup (hp s) c_new = Some (OClass n2 m2 cd2 b2 sl2) /\
+                    slots_differ nm (hp s) cd1 cd2 = true)
+                 \/ bases_ok c_old c_new = false)).
+Proof.
+  unfold patch_class. destruct (lookup (hp s) c_old) as [o|] eqn:Eo; [|discriminate]. destruct o; try discriminate.
+  destruct (lookup (hp s) c_new) as [n|] eqn:En; [|discriminate]. destruct n; try discriminate.
+  destruct (slots_differ nm (hp s) cdict cdict0) eqn:Es.
+  - intros H. inversion H; subst. right. split; [reflexivity|]. left.
+    do 10 eexists. split; [reflexivity|]. split; [reflexivity|exact Es].
+  - intros H.
+    apply (map_bases_result rec stack bases (patch_class_body modname bases_ok nm rec stack c_old c_new)
+             (fun a => a = c_old \/ (a = c_new /\ bases_ok c_old c_new = false))) in H.
+    + destruct H as [H|[H1 H2]]; [left; exact H|right; split; [exact H1|right; exact H2]].
+    + intros s0 l s1 a0. apply patch_class_body_result.
+Qed.
+
+(* right bases (single inheritance): the base of the new class has a counterpart among the old bases; the
+   body runs with the RESULT of livepatching that pair - the old base object whenever the base class is itself
+   kept - and stores it as the class's __bases__ *)
+Theorem map_bases_single (rec : recT) stack ob nb s k :
+  same_class_key (class_key (hp s) ob) (class_key (hp s) nb) = true ->
+  map_bases rec stack [ob] [nb] s [] k = bind (rec s stack ob nb) (fun s' u => k s' [u]).
+Proof. intros H. simpl. rewrite H. reflexivity. Qed.
+
+Theorem patch_class_body_sets_bases (rec : recT) stack c_old c_new s mapped n1 m1 cd1 b1 sl1 n2 m2 cd2 b2 sl2 :
+  lookup (hp s) c_old = Some (OClass n1 m1 cd1 b1 sl1) ->
+  lookup (hp s) c_new = Some (OClass n2 m2 cd2 b2 sl2) ->
+  (listN_eqb b1 mapped = true \/ bases_ok c_old c_new = true) ->
+  exists cd, exists l,
+    patch_class_body modname bases_ok nm rec stack c_old c_new s mapped =
+    fold_left (setattr_class modname rec stack c_old c_new) l
+              (Ok (upd s c_old (OClass n1 m1 cd mapped sl1)) c_old).
+Proof.
+  intros Ho Hn Hb. unfold patch_class_body. rewrite Ho, Hn.
+  assert (negb (listN_eqb b1 mapped) && negb (bases_ok c_old c_new) = false) as ->.
+  { destruct Hb as [-> | ->]; [reflexivity|]. rewrite andb_false_r. reflexivity. }
+  eexists. eexists. reflexivity.
+Qed.
+
 End Proofs.
 
 (* ---------- F20: the property's wording (without "equal plain cell values") is false ---------- *)
 (* two functions with the same name, closure length, free variables and cell value types, whose only
    cell holds a different number: _livepatch__function returns the NEW function *)
 Definition f20_heap : heap :=
-  [ (1, OFunc 10 (Some 1) 100 101 101 102 102 103 [104] [11]);   (* old g = mk(1): name inner, cell -> 104 *)
-    (2, OFunc 10 (Some 1) 100 101 101 102 102 203 [204] [11]);   (* new g = mk(2): same code object, cell -> 204 *)
+  [ (1, OFunc 10 (Some 1) 100 101 101 102 102 103 [304] [11]);   (* old g = mk(1): name inner, cell 304 -> 104 *)
+    (2, OFunc 10 (Some 1) 100 101 101 102 102 203 [404] [11]);   (* new g = mk(2): same code object, cell 404 -> 204 *)
+    (304, OCell 104); (404, OCell 204);
     (100, OPrim 5 1); (101, OPrim 6 2); (102, OPrim 6 2);
     (103, ODict []); (203, ODict []);
     (104, OPrim 7 31);                                   (* int 1 *)
@@ -117,8 +243,11 @@ Definition literal_shape_equal (h : heap) (fo fn : obj) : bool :=
   match fo, fn with
   | OFunc n1 _ _ _ _ _ _ _ cl1 fv1, OFunc n2 _ _ _ _ _ _ _ cl2 fv2 =>
       (n1 =? n2)%N && Nat.eqb (length cl1) (length cl2) && listN_eqb fv1 fv2 &&
-      forallb (fun ab => match lookup h (fst ab), lookup h (snd ab) with
-                         | Some x, Some y => ty_eqb (tyof x) (tyof y) | _, _ => false end) (combine cl1 cl2)
+      forallb (fun ab => match cell_val h (fst ab), cell_val h (snd ab) with
+                         | Some va, Some vb =>
+                             match lookup h va, lookup h vb with
+                             | Some x, Some y => ty_eqb (tyof x) (tyof y) | _, _ => false end
+                         | _, _ => false end) (combine cl1 cl2)
   | _, _ => false
   end.
 
@@ -131,3 +260,37 @@ Proof.
   split; [reflexivity|]. split; [reflexivity|]. split; [vm_compute; reflexivity|].
   intros rec stack. split; [reflexivity|discriminate].
 Qed.
+
+(* ---------- C16-e: before the repair a kept subclass was re-pointed at the SCRATCH base class ---------- *)
+(* A (10 old / 11 new), B(A) (12 old / 13 new), object = 1000; module 9 *)
+Definition c16e_heap : heap :=
+  [ (1000, OClass 99 (Some 98) [] [] None);
+    (10, OClass 20 (Some 9) [] [1000] None); (11, OClass 20 (Some 9) [] [1000] None);
+    (12, OClass 21 (Some 9) [] [10] None);   (13, OClass 21 (Some 9) [] [11] None) ]%N.
+
+Definition c16e_names := (mkNames 90 91 92 93)%N.
+
+Definition class_bases (h : heap) (c : addr) : option (list addr) :=
+  match lookup h c with Some (OClass _ _ _ b _) => Some b | _ => None end.
+
+(* the full statement "a kept class has the (kept) module classes as bases" fails for the old code: *)
+Theorem c16e_v0_refuted :
+  exists h b_old b_new a_old a_new,
+    class_bases h b_old = Some [a_old] /\ class_bases h b_new = Some [a_new] /\ a_old <> a_new /\
+    match patch_class_v0 9%N (fun _ _ => true) c16e_names (lp 9%N 0%N (fun _ _ => true) c16e_names 10)
+                         (mkSt h []) [b_old] b_old b_new with
+    | Ok s r => r = b_old /\ class_bases (hp s) b_old = Some [a_new]       (* B kept, base = scratch A *)
+    | _ => False
+    end.
+Proof.
+  exists c16e_heap, 12%N, 13%N, 10%N, 11%N. vm_compute. repeat split; try reflexivity. discriminate.
+Qed.
+
+(* the repaired code keeps B and its base is the OLD (patched in place) A *)
+Example c16e_repaired :
+  match patch_class 9%N (fun _ _ => true) c16e_names (lp 9%N 0%N (fun _ _ => true) c16e_names 10)
+                    (mkSt c16e_heap []) [12%N] 12%N 13%N with
+  | Ok s r => r = 12%N /\ class_bases (hp s) 12%N = Some [10%N] /\ cache_find (cache s) 10%N 11%N = Some 10%N
+  | _ => False
+  end.
+Proof. vm_compute. repeat split. Qed.
